@@ -30,7 +30,8 @@
 #define ALLW(P) (P (0) && P (1) && P (2))
 
 /* element lifetimes (C03): inside the object that holds the elements, exactly the size () cells from data () on hold a live element */
-#define CELL1(s, i) IMPLIES (SAMEOBJ (WP[i], DATA (s)), IFF (LIVE (i), IN_RANGE (WP[i], DATA (s), SZ (s))))
+#define CELL1(s, i) (IMPLIES (SAMEOBJ (WP[i], DATA (s)), IFF (LIVE (i), IN_RANGE (WP[i], DATA (s), SZ (s)))) \
+                     && IMPLIES (SAMEOBJ (WP[i], (s)) && !SAMEOBJ (DATA (s), (s)), RAW (i)))
 #define CELLS(s) (CELL1 (s, 0) && CELL1 (s, 1) && CELL1 (s, 2))
 
 /* allocation ledger (C04): a heap buffer is a live block of exactly capacity () elements of the container's allocator */
